@@ -10,7 +10,7 @@
 #include <tuple>
 
 #ifdef _OPENMP
-extern "C" int omp_get_num_procs(void) { return 64; }
+extern "C" int omp_get_num_procs(void) { return vf::g_fake_procs; }
 #endif
 
 namespace vf {
